@@ -292,3 +292,54 @@ pub fn block_skeletons(depth: usize) -> Vec<String> {
     out.dedup();
     out
 }
+
+// ---------------------------------------------------------------------------
+// One-line spellings: several block statements on the same source line
+// (sequential and nested), so that they share their row.
+// ---------------------------------------------------------------------------
+
+pub fn one_line_programs() -> Vec<String> {
+    // (opening, closing) pairs of one-line block constructs using counter / flag variable `v`
+    let open_close = |k: usize, v: &str| -> (String, String) {
+        match k {
+            0 => (format!("FOR {v} = 1 TO 2"), format!("NEXT {v}")),
+            1 => (format!("FOR {v} = 2 TO 1 STEP -1"), "NEXT".to_string()),
+            2 => (format!("{v} = 0: WHILE {v} < 2: {v} = {v} + 1"), "WEND".to_string()),
+            3 => (format!("{v} = 0: DO WHILE {v} < 2: {v} = {v} + 1"), "LOOP".to_string()),
+            4 => (format!("{v} = 0: DO: {v} = {v} + 1"), format!("LOOP UNTIL {v} >= 2")),
+            5 => (format!("SELECT CASE {v}: CASE 0, 1, 2"), "CASE ELSE: PRINT \"else\": END SELECT".to_string()),
+            _ => (format!("IF {v} >= 0 THEN"), String::new()),
+        }
+    };
+    let mut out = vec![];
+    for a in 0..7 {
+        for b in 0..7 {
+            let (oa, ca) = open_close(a, "I");
+            let (ob, cb) = open_close(b, "J");
+            // sequential on one line (a single-line IF swallows the rest of the line: keep it last)
+            if a != 6 {
+                let second = if cb.is_empty() {
+                    format!("{}: PRINT \"b\"; J", ob).replacen("THEN:", "THEN", 1)
+                } else {
+                    format!("{}: PRINT \"b\"; J: {}", ob, cb)
+                };
+                out.push(format!("{}: PRINT \"a\"; I: {}: {}\nPRINT \"end\"\n", oa, ca, second));
+            }
+            // nested on one line
+            let inner = if cb.is_empty() {
+                None
+            } else {
+                Some(format!("{}: PRINT I; J: {}", ob, cb))
+            };
+            if let Some(inner) = inner {
+                let line = if ca.is_empty() {
+                    format!("{} {}", oa, inner)
+                } else {
+                    format!("{}: {}: {}", oa, inner, ca)
+                };
+                out.push(format!("{}\nPRINT \"end\"\n", line));
+            }
+        }
+    }
+    out
+}
